@@ -973,3 +973,96 @@ pub fn gen_loops(sim: &mut Sim) -> Program {
     p.node_loop = node_loop;
     p
 }
+
+// ---- C22: rustc-level compile-agreement families ----------------------------------------------
+
+/// Variant families for the rustc leg of C22: one operator realised pull-side, push-side (behind a
+/// 2-output tee whose other leg goes to `null()`), pull-side behind a union with an empty `null()`
+/// input, and push-side behind an extra identity. All variants of a family compute the same sink.
+pub fn rustc_families(sim: &mut Sim) -> Vec<(String, Vec<(String, Program)>)> {
+    let mut fams = vec![];
+    let p = pers(sim);
+    let p2 = pers(sim);
+    let ops: Vec<(&str, Op)> = vec![
+        ("multiset_delta", Op::MultisetDelta),
+        ("unique", Op::Unique { p }),
+        ("sort_by_key", Op::SortByKey { f: sim.choose("f", 0, 1) as u8 }),
+        ("fold_keyed", Op::FoldKeyed { p: p2, f: sim.choose("f", 0, cl::N_KEYED as u64 - 1) as u8 }),
+        ("persist", Op::Persist),
+        ("enumerate", Op::Enumerate { p }),
+    ];
+    let mk = |nodes: Vec<Node>, n_chans: usize, sinks: usize, kind: &str| -> Program {
+        let n = nodes.len();
+        Program { kind: kind.to_string(), nodes, n_chans, sink_order: vec![Order::Bag; sinks], n_inspect: 0, emit_order: (0..n).collect(), loops: vec![], node_loop: vec![], n_refs: 0 }
+    };
+    let s = |node: usize, port: usize| Src { node, port };
+    for (name, op) in ops {
+        let kind = format!("rustc_{name}");
+        let pull = mk(vec![Node { op: Op::Src { chan: 0 }, ins: vec![] }, Node { op: op.clone(), ins: vec![s(0, 0)] }, Node { op: Op::Sink { id: 0 }, ins: vec![s(1, 0)] }], 1, 1, &kind);
+        let push_tee = mk(
+            vec![
+                Node { op: Op::Src { chan: 0 }, ins: vec![] },
+                Node { op: Op::Tee, ins: vec![s(0, 0)] },
+                Node { op: op.clone(), ins: vec![s(1, 0)] },
+                Node { op: Op::Sink { id: 0 }, ins: vec![s(2, 0)] },
+                Node { op: Op::Null, ins: vec![s(1, 1)] },
+            ],
+            1,
+            1,
+            &kind,
+        );
+        let pull_union = mk(
+            vec![
+                Node { op: Op::Src { chan: 0 }, ins: vec![] },
+                Node { op: Op::NullSrc, ins: vec![] },
+                Node { op: Op::Union, ins: vec![s(0, 0), s(1, 0)] },
+                Node { op: op.clone(), ins: vec![s(2, 0)] },
+                Node { op: Op::Sink { id: 0 }, ins: vec![s(3, 0)] },
+            ],
+            1,
+            1,
+            &kind,
+        );
+        let push_identity = mk(
+            vec![
+                Node { op: Op::Src { chan: 0 }, ins: vec![] },
+                Node { op: Op::Tee, ins: vec![s(0, 0)] },
+                Node { op: Op::Identity, ins: vec![s(1, 0)] },
+                Node { op: op.clone(), ins: vec![s(2, 0)] },
+                Node { op: Op::Sink { id: 0 }, ins: vec![s(3, 0)] },
+                Node { op: Op::Null, ins: vec![s(1, 1)] },
+            ],
+            1,
+            1,
+            &kind,
+        );
+        fams.push((name.to_string(), vec![("pull".to_string(), pull), ("push_tee".to_string(), push_tee), ("pull_union".to_string(), pull_union), ("push_identity".to_string(), push_identity)]));
+    }
+    // two `#{g} mut` holders of one singleton: each in a subgraph of its own (behind a handoff())
+    // vs both in the subgraph of the tee that feeds them
+    let f = sim.choose("f", 0, cl::N_REF as u64 - 1) as u8;
+    let refs = |iso: bool| -> Program {
+        let mut nodes = vec![
+            Node { op: Op::Src { chan: 0 }, ins: vec![] },
+            Node { op: Op::Fold { p: Pers::Tick, f: 0 }, ins: vec![s(0, 0)] },
+            Node { op: Op::HoffSingleton, ins: vec![s(1, 0)] },
+            Node { op: Op::Src { chan: 1 }, ins: vec![] },
+            Node { op: Op::Tee, ins: vec![s(3, 0)] },
+        ];
+        for g in 0..2u32 {
+            let mut from = s(4, g as usize);
+            if iso {
+                nodes.push(Node { op: Op::HoffVec, ins: vec![from] });
+                from = s(nodes.len() - 1, 0);
+            }
+            nodes.push(Node { op: Op::RefMap { target: 2, group: g, write: true, f }, ins: vec![from] });
+            let r = nodes.len() - 1;
+            nodes.push(Node { op: Op::Sink { id: g as usize }, ins: vec![s(r, 0)] });
+        }
+        let mut p = mk(nodes, 2, 2, "rustc_ref_mut_holders");
+        p.n_refs = 1;
+        p
+    };
+    fams.push(("ref_mut_holders".to_string(), vec![("separate_subgraphs".to_string(), refs(true)), ("one_subgraph".to_string(), refs(false))]));
+    fams
+}
